@@ -3,7 +3,7 @@
 //! Stand-ins: `vcoll::BTreeMap` (RoutingTable.buckets), `vcoll::HashSet` (via ClosestNodes).
 //! @needs: closest_nodes
 use super::*;
-use crate::common::closest_nodes::kani_h::in_order;
+use crate::common::kani_h_closest_nodes::in_order;
 use crate::verif_env::clock;
 use std::net::SocketAddrV4;
 
@@ -28,6 +28,11 @@ fn any_public_node_160() -> Node {
     a[19] = kani::any();
     let ip = if kani::any() { [8, 8, 8, 8] } else { [1, 2, 3, 4] };
     Node::new(Id::from(a), SocketAddrV4::new(ip.into(), 6881))
+}
+
+/// same entry (the very same Arc): cheap identity instead of a deep field-by-field compare
+fn same(a: &Node, b: &Node) -> bool {
+    std::sync::Arc::ptr_eq(&a.0, &b.0)
 }
 
 fn pair_ok(a: &Node, b: &Node) -> bool {
@@ -63,11 +68,11 @@ fn c12_o1_kbucket_add_step() {
     if s.len() == 3 {
         assert!(s[0].id() != s[2].id() && s[1].id() != s[2].id(), "C12.O1 ids in a bucket are distinct");
         assert!(!known && r, "C12.O1 a known id never adds an entry");
-        assert!(s[2] == inc, "C12.O1 new node appended at the tail");
+        assert!(same(&s[2], &inc), "C12.O1 new node appended at the tail");
     } else {
         assert!(known, "C12.O1 a new id is added while the bucket has room");
         if r {
-            assert!(s[1] == inc, "C12.O1 refreshed node moves to the tail");
+            assert!(same(&s[1], &inc), "C12.O1 refreshed node moves to the tail");
         }
     }
     kani::cover!(r && s.len() == 3);
@@ -98,9 +103,9 @@ fn c12_o1b_kbucket_update_rule() {
     assert!(b.nodes.len() == 1, "C12.O1 a known id never adds an entry");
     assert!(r == expect, "C12.O1b replace iff incoming secure or both insecure with the same IP");
     if r {
-        assert!(b.nodes[0] == inc, "C12.O1b replaced by the incoming node");
+        assert!(same(&b.nodes[0], &inc), "C12.O1b replaced by the incoming node");
     } else {
-        assert!(b.nodes[0] == existing, "C12.O1b refused update leaves the entry unchanged");
+        assert!(same(&b.nodes[0], &existing), "C12.O1b refused update leaves the entry unchanged");
     }
     kani::cover!(r && !existing.same_ip(&inc));
     kani::cover!(!r);
@@ -216,7 +221,7 @@ fn c12_o3_table_add_step() {
             assert!(x.id() != rt.id(), "C12.O3 table never contains its own id");
             let dx = rt.id().distance(x.id());
             let in_bucket = match rt.buckets.get(&dx) {
-                Some(b) => b.nodes.iter().any(|y| y == x),
+                Some(b) => b.nodes.iter().any(|y| same(y, x)),
                 None => false,
             };
             assert!(in_bucket, "C12.O3 entry sits in the bucket of its distance");
@@ -320,8 +325,8 @@ fn c12_o4_remove_and_rekey() {
         let hit2 = victim.id() == n2.id();
         assert!(rt.size() == 2 - (hit1 as usize) - (hit2 as usize), "C12.O4 remove deletes exactly the named entry");
         let b = rt.buckets.get(&160).unwrap();
-        if !hit1 { assert!(b.nodes.iter().any(|y| *y == n1), "C12.O4 remove leaves other entries"); }
-        if !hit2 { assert!(b.nodes.iter().any(|y| *y == n2), "C12.O4 remove leaves other entries"); }
+        if !hit1 { assert!(b.nodes.iter().any(|y| same(y, &n1)), "C12.O4 remove leaves other entries"); }
+        if !hit2 { assert!(b.nodes.iter().any(|y| same(y, &n2)), "C12.O4 remove leaves other entries"); }
         kani::cover!(hit1);
         kani::cover!(!hit1 && !hit2);
     } else {
@@ -341,7 +346,7 @@ fn c12_o4_remove_and_rekey() {
             if let Some(x) = &es[i] {
                 assert!(*x.id() != new_id, "C12.O4 table never contains its own id");
                 let dx = new_id.distance(x.id());
-                let ok = match rt.buckets.get(&dx) { Some(b) => b.nodes.iter().any(|y| y == x), None => false };
+                let ok = match rt.buckets.get(&dx) { Some(b) => b.nodes.iter().any(|y| same(y, x)), None => false };
                 assert!(ok, "C12.O4 entry sits in the bucket of its distance after re-keying");
             }
             i += 1;
@@ -386,12 +391,12 @@ fn c11_o3_table_closest() {
     let mut i = 0;
     while i < 3 {
         let x = &out[i];
-        assert!(*x == n1 || *x == n2 || *x == n3, "C11.O3 closest returns table members");
+        assert!(same(x, &n1) || same(x, &n2) || same(x, &n3), "C11.O3 closest returns table members");
         i += 1;
     }
     assert!(out[0].id() != out[1].id() && out[0].id() != out[2].id() && out[1].id() != out[2].id(), "C11.O3 closest has no duplicates");
-    kani::cover!(out[0] == n3);
-    kani::cover!(out[2] == n3);
+    kani::cover!(same(&out[0], &n3));
+    kani::cover!(same(&out[2], &n3));
     std::mem::forget(out);
     std::mem::forget(rt);
 }
